@@ -17,6 +17,10 @@ pub enum Ev {
     Endless(Vec<u8>),
 }
 
+/// Only the first reads are recorded (diagnostics): the log lives on the client's thread, and C05 measures that thread's
+/// heap, so it must stay small (a 4096-entry log re-allocated at the wrong moment once pushed a case over C05's budget).
+const READ_LOG_CAP: usize = 256;
+
 #[derive(Debug, Clone, Default)]
 pub struct ReadRec {
     pub offered: usize,
@@ -106,11 +110,13 @@ impl Read for Scripted {
     fn read(&mut self, buf: &mut [u8]) -> io::Result<usize> {
         let mut log = self.log.lock().unwrap();
         if buf.is_empty() {
-            log.reads.push(ReadRec {
-                offered: 0,
-                served: 0,
-                kind: "empty",
-            });
+            if log.reads.len() < READ_LOG_CAP {
+                log.reads.push(ReadRec {
+                    offered: 0,
+                    served: 0,
+                    kind: "empty",
+                });
+            }
             return Ok(0);
         }
         if log.limit > 0 && log.served > log.limit {
@@ -124,7 +130,7 @@ impl Read for Scripted {
             match self.events.get(self.idx) {
                 None | Some(Ev::Eof) => {
                     log.eof_reads += 1;
-                    if log.reads.len() < 4096 {
+                    if log.reads.len() < READ_LOG_CAP {
                         log.reads.push(ReadRec {
                             offered: buf.len(),
                             served: 0,
@@ -147,7 +153,7 @@ impl Read for Scripted {
                         self.off = 0;
                     }
                     log.served += n;
-                    if log.reads.len() < 4096 {
+                    if log.reads.len() < READ_LOG_CAP {
                         log.reads.push(ReadRec {
                             offered: buf.len(),
                             served: n,
@@ -164,7 +170,7 @@ impl Read for Scripted {
                     }
                     self.off = (self.off + n) % plen;
                     log.served += n;
-                    if log.reads.len() < 4096 {
+                    if log.reads.len() < READ_LOG_CAP {
                         log.reads.push(ReadRec {
                             offered: n,
                             served: n,
@@ -177,16 +183,18 @@ impl Read for Scripted {
                     let kind = *kind;
                     self.idx += 1;
                     self.off = 0;
-                    log.reads.push(ReadRec {
-                        offered: buf.len(),
-                        served: 0,
-                        kind: "err",
-                    });
+                    if log.reads.len() < READ_LOG_CAP {
+                        log.reads.push(ReadRec {
+                            offered: buf.len(),
+                            served: 0,
+                            kind: "err",
+                        });
+                    }
                     return Err(io::Error::new(kind, "injected transport error"));
                 }
                 Some(Ev::Pause) => {
                     log.would_block += 1;
-                    if log.reads.len() < 4096 {
+                    if log.reads.len() < READ_LOG_CAP {
                         log.reads.push(ReadRec {
                             offered: buf.len(),
                             served: 0,
